@@ -21,6 +21,8 @@ Inductive case :=
 | CPrepOrder (cleanup : bool)
     (* the non-Pure steps of prepare_run extracted from the source by the translator + did coqc accept
        gen/Check_PrepareSteps.v on the regenerated term *)
+| CRunOrder
+    (* the non-Pure steps of Pipeline.run extracted from the source (the Effect is the first call of user code) *)
 | CClassify (tag : nat)
 | CCall (p : Pipe.pipeline) (o : str) (kw : Pipe.alist) (claimed_valid : bool)
 | CMutate (mu : mutation) (u : use_t).
@@ -98,11 +100,12 @@ Definition run (c : case) : sx :=
               SI (match tr with [] => 0 | _ => 1 end)]
       end
   | CPrepOrder cleanup => SL [SL (map sx_step (map_steps cleanup)); SB true]
+  | CRunOrder => SL [SL (map sx_step run_entry_steps); SB true]
   | CClassify _ => SL []
   | CMutate mu u => run_mutate mu u
   | CCall p o kw _ =>
       if Pipe.wf_pipelineb p then
-        match Pipe.run Pipe.Sym.body Pipe.Sym.pick p o kw false with
+        match Pipe.run_checked Pipe.Sym.body Pipe.Sym.pick p o kw false with
         | (Ok _, _) => SL [SS (s "accepted")]
         | (Err e, lg) => SL [SS (s "rejected"); SS (s (err_name e)); SN (length lg)]
         end
@@ -157,6 +160,11 @@ Definition spec_ok (c : case) (obs : sx) : bool :=
   | CPrepOrder cleanup =>
       match obs with
       | SL [SL steps; flag] => steps_ok cleanup (map un_step steps) && sx_eqb flag (SB true)
+      | _ => false
+      end
+  | CRunOrder =>
+      match obs with
+      | SL [SL steps; flag] => no_effect_before_checks (map un_step steps) && sx_eqb flag (SB true)
       | _ => false
       end
   | CClassify _ => match obs with SL [] => true | _ => false end
